@@ -12,16 +12,17 @@ LEVEL = 'exploration'
 RULE = ('case = (1-4 messages, segmentation plan, optional truncation offset + FIN/RST); the byte stream is produced by the real '
         'send_msg into a scripted socket and read back by the real recv_msg under the plan. Short streams (8 and 16/17 bytes) '
         'enumerate every composition and every truncation offset; longer ones use cuts placed relative to header/body boundaries, '
-        'one-byte-per-read windows and seeded random cuts. Non-trivial = the plan splits a 4-byte header or a body, or the '
+        'one-byte-per-read windows and seeded random cuts. In 3 of 8 cases the stream is additionally produced through a transport whose send/sendmsg accept '
+        'at most q in {1,3,4,5,64,4096} bytes per call (sendall completes, as the real one does): the bytes written must be the same. Non-trivial = the plan splits a 4-byte header or a body, or the '
         'truncation lies strictly inside a message; distinct = distinct (message sizes, absolute cut positions, truncation, end kind).')
-ASSUMPTIONS = ['socket.recv(n) returns between 1 and n bytes while data remains, b"" at orderly EOF, raises ConnectionResetError on RST',
+ASSUMPTIONS = ['socket.send / sendmsg may accept fewer bytes than given and report the count; sendall writes everything or raises', 'socket.recv(n) returns between 1 and n bytes while data remains, b"" at orderly EOF, raises ConnectionResetError on RST',
                'payload values compare with == after a pickle round trip']
 SHRINK = 'hypothesis'
 SHRINK_EXAMPLES = 400
 TIME_BUDGET = {'quick': 120, 'thorough': 1500}
 REQUIRED = {
     'quick': {'hdr_1_3': 20, 'hdr_2_2': 20, 'hdr_3_1': 20, 'hdr_1_1_1_1': 20, 'body_split': 100, 'trunc_in_header': 20,
-              'trunc_in_body': 20, 'trunc_body_first': 5, 'trunc_body_last': 5, 'rst': 20, 'multi_message': 100, 'big_payload': 10},
+              'trunc_in_body': 20, 'trunc_body_first': 5, 'trunc_body_last': 5, 'rst': 20, 'multi_message': 100, 'big_payload': 10, 'partial_writes': 2000},
     'thorough': {'hdr_1_3': 200, 'hdr_2_2': 200, 'hdr_3_1': 200, 'hdr_1_1_1_1': 200, 'body_split': 1000, 'trunc_in_header': 200,
                  'trunc_in_body': 200, 'trunc_body_first': 50, 'trunc_body_last': 50, 'rst': 200, 'multi_message': 1000,
                  'big_payload': 100},
@@ -43,7 +44,8 @@ class SpinDetected(BaseException):
 class ScriptedSocket:
     """Duck-types what send_msg/recv_msg use.  recv serves `data` cut at `cuts` (absolute positions)."""
 
-    def __init__(self, data=b'', cuts=(), end='eof', spin_limit=2000):
+    def __init__(self, data=b'', cuts=(), end='eof', spin_limit=2000, write_quota=None):
+        self.write_quota = write_quota     # a transport that accepts at most this many bytes per write call (send / sendmsg); sendall completes
         self.data = bytes(data)
         self.cuts = sorted(set(c for c in cuts if 0 < c < len(self.data)))
         self.pos = 0
@@ -57,9 +59,14 @@ class ScriptedSocket:
     def sendall(self, b):
         self.sent += b
 
-    def send(self, b):
-        self.sent += b
-        return len(b)
+    def send(self, b, flags=0):
+        b = bytes(b)
+        n = len(b) if self.write_quota is None else min(len(b), self.write_quota)
+        self.sent += b[:n]
+        return n
+
+    def sendmsg(self, buffers, ancdata=(), flags=0, address=None):
+        return self.send(b''.join(bytes(x) for x in buffers))
 
     def recv(self, n, flags=0):
         self.recv_calls += 1
@@ -137,10 +144,14 @@ def strategy(tier):
         'all': st.sampled_from([0, 0, 0, 0, 1, 2, 3, 7]),   # k>0: additionally cut every k bytes (small streams only)
         'truncate': _trunc,
         'end': st.sampled_from(['eof', 'eof', 'rst']),
+        'wq': st.sampled_from([None, None, 1, 3, 4, 5, 64, 4096]),    # bytes the sending transport accepts per write call
     })
 
 
 def exhaustive(tier, shard, nshards):
+    for wq in (1, 2, 3, 4, 5, 7, 8, 9, 64):
+        if wq % nshards == shard:
+            yield {'messages': [{'value': None}, {'bytes': 300}], 'cuts': [], 'truncate': None, 'end': 'eof', 'wq': wq}
     # every composition + every truncation offset of the 8-byte stream; every composition of a 2-message ~17-byte stream
     idx = 0
     for msgs in ([{'value': None}], [{'value': None}, {'value': True}]):
@@ -203,6 +214,15 @@ def run_case(case, ctx):
         send_msg(tx, v)
         msgs_bounds.append((h0, h0 + 4, len(tx.sent)))
     S = bytes(tx.sent)
+    if case.get('wq') is not None:
+        # metamorphic: how many bytes the transport takes per write call must not change the byte stream the sender produces
+        tq = ScriptedSocket(write_quota=case['wq'])
+        for v in values:
+            send_msg(tq, v)
+        out.label('partial_writes')
+        if bytes(tq.sent) != S:
+            out.nontrivial = True
+            out.viol('sender_lost_bytes_on_partial_write', 'send_msg', f'transport accepting {case["wq"]} bytes per write call: {len(tq.sent)} of {len(S)} bytes written')
     L = len(S)
     # sanity of the stream against an independent decoder (does not judge the format, only self-consistency of my bookkeeping)
     bounds = sorted(set([0] + [b for mb in msgs_bounds for b in mb]))
